@@ -32,20 +32,22 @@ Print Assumptions C18_cursive_right_to_left_flag.
 
 (* ---- which glyphs are "of a left-to-right script": util.classifyGlyphs ----
    Environment assumption (a hypothesis of the theorems, not an axiom): the fontTools subsetter's GSUB closure `gclose`
-   is reachability over the table's single-substitution edges G.  X: designspace rule substitutions.  L: glyphs the cmap
+   is reachability over the table's rules G -- a rule (inputs, output) fires when ALL its inputs are present (one input
+   for single / alternate substitutions, several for ligatures).  X: designspace rule substitutions.  L: glyphs the cmap
    maps left-to-right characters to, N: glyphs of neutral characters. *)
 From U2F Require Import Mark.Direction Mark.DirectionProofs.
 
 Theorem C18_classified_glyphs_are_reachable : forall G gclose,
   (forall S g, In g (gclose S) <-> reach G S g) ->
-  forall X b L N g, In g (classify gclose X b L N) -> reach ((if b then G else []) ++ X) (L ++ N) g.
+  forall X b L N g, In g (classify gclose X b L N) -> reach ((if b then G else []) ++ as_rules X) (L ++ N) g.
 Proof. intros G gclose H X b L N g. exact (classify_sound G gclose H X b L N g). Qed.
 Print Assumptions C18_classified_glyphs_are_reachable.
 
 Theorem C18_classification_is_reachability : forall G gclose,
   (forall S g, In g (gclose S) <-> reach G S g) ->
-  forall X b L g, In g (classify gclose X b L []) <-> reach ((if b then G else []) ++ X) L g.
-Proof. intros G gclose H X b L g. exact (classify_is_reachability G gclose H X b L g). Qed.
+  (forall ins b, In (ins, b) G -> ins <> []) ->
+  forall X b L g, In g (classify gclose X b L []) <-> reach ((if b then G else []) ++ as_rules X) L g.
+Proof. intros G gclose H Hi X b L g. exact (classify_is_reachability G gclose H X Hi b L g). Qed.
 Print Assumptions C18_classification_is_reachability.
 
 Theorem C18_rule_substitutes_are_classified : forall G gclose,
@@ -64,8 +66,16 @@ Print Assumptions C18_cursive_lookups_partition_by_direction.
 (* repaired defect F24: applying the rule substitutions once misses n.alt.sc (rule n -> n.alt, GSUB n.alt -> n.alt.sc) *)
 Example C18_single_pass_incomplete_refuted :
   let n := [1%Z] in let n_alt := [2%Z] in let n_alt_sc := [3%Z] in
-  let G := [(n_alt, n_alt_sc)] in let X := [(n, n_alt)] in
-  reach (G ++ X) [n] n_alt_sc /\ mem n_alt_sc (classify_once (closure G) X true [n] []) = false /\
+  let G : list rule := [([n_alt], n_alt_sc)] in let X := [(n, n_alt)] in
+  reach (G ++ as_rules X) [n] n_alt_sc /\ mem n_alt_sc (classify_once (closure G) X true [n] []) = false /\
   mem n_alt_sc (classify (closure G) X true [n] []) = true.
 Proof. exact classify_once_incomplete_refuted. Qed.
 Print Assumptions C18_single_pass_incomplete_refuted.
+
+(* a ligature of a left-to-right letter and a neutral glyph is classified because the neutral glyphs take part in the closure *)
+Example C18_neutral_glyphs_take_part_in_the_closure :
+  let f := [1%Z] in let hyphen := [2%Z] in let f_hyphen := [3%Z] in
+  let G : list rule := [([f; hyphen], f_hyphen)] in
+  mem f_hyphen (classify (closure G) [] true [f] [hyphen]) = true /\ mem f_hyphen (closure G [f]) = false.
+Proof. exact neutral_glyphs_take_part_in_the_closure. Qed.
+Print Assumptions C18_neutral_glyphs_take_part_in_the_closure.
